@@ -104,6 +104,64 @@ def impl_rewrite(case):
     return {"module": js, "replaced": bool(rw.replaced)}
 
 
+def impl_cmp(case):
+    from cdd.shared.ast_utils import cmp_ast
+
+    a, b = case
+    return {"eq": bool(cmp_ast(ast.parse(a).body[0], ast.parse(b).body[0]))}
+
+
+def _drop_last(lines, rng):
+    """remove the last top-level line group of an indented body (keeps at least one statement)"""
+    return lines[:-1] if len(lines) > 1 else lines
+
+
+def cmp_cases(rng, n):
+    """pairs of definitions; many differ only in that one list (class body, nested method body, parameters, defaults, bases,
+    decorators, call arguments) is a strict PREFIX of the other — `cmp_ast` must compare lengths, not just zip"""
+    out = []
+    attrs = ["a: int = 1", "b: str = 'x'", "c: float = 0.5", "d = [1, 2]", "e: int", "print(a, b)", "f = g(1, 2)"]
+    for _ in range(n):
+        k = rng.randint(2, 5)
+        body = rng.sample(attrs, k)
+        doc = ['"""doc"""'] if rng.random() < 0.6 else []
+        meth_body = rng.sample(["x = 1", "y = (1, 2)", "return x", "z = h(x, y)"], rng.randint(2, 4))
+        params = rng.sample(["p", "q", "r", "s"], rng.randint(2, 4))
+        ndef = rng.randint(1, len(params))
+        bases = rng.sample(["object", "Base", "Mixin"], rng.randint(1, 3))
+        decos = rng.sample(["@d1", "@d2"], rng.randint(0, 2))
+
+        def render(body=body, meth_body=meth_body, params=params, ndef=ndef, bases=bases, decos=decos):
+            sig = ["self"] + [pn + ("=%d" % i if i >= len(params) - ndef else "") for i, pn in enumerate(params)]
+            lines = list(decos) + ["class K(%s):" % ", ".join(bases)] + ["    " + l for l in doc + list(body)]
+            lines += ["    def m(%s):" % ", ".join(sig)] + ["        " + l for l in meth_body]
+            return "\n".join(lines) + "\n"
+
+        a = render()
+        kind = rng.choice(["same", "body", "nested", "params", "defaults", "bases", "decos", "expr", "other"])
+        if kind == "same":
+            b = render()
+        elif kind == "body":
+            b = render(body=body[:rng.randint(1, k - 1)])
+        elif kind == "nested":
+            b = render(meth_body=meth_body[:-1])
+        elif kind == "params":
+            b = render(params=params[:-1], ndef=min(ndef, len(params) - 1))
+        elif kind == "defaults":
+            b = render(ndef=ndef - 1) if ndef > 1 else render(ndef=ndef + 1 if ndef < len(params) else ndef)
+        elif kind == "bases":
+            b = render(bases=bases[:-1] or ["object", "Extra"])
+        elif kind == "decos":
+            b = render(decos=decos[:-1] if decos else ["@d1"])
+        elif kind == "expr":
+            b = a.replace("[1, 2]", "[1, 2, 3]").replace("(1, 2)", "(1, 2, 3)").replace("g(1, 2)", "g(1)").replace("print(a, b)", "print(a)")
+        else:
+            b = render(body=rng.sample(attrs, k))
+        pair = (a, b) if rng.random() < 0.5 else (b, a)
+        out.append((kind, pair))
+    return out
+
+
 def paths_in(src):
     """search paths that denote something in the module (as annotate_ancestry names things), to make hits frequent"""
     out = []
@@ -196,6 +254,18 @@ UNRELATED_IN_CLASS = [
 ]
 
 
+SAME_NAMED_AFTER = [
+    "NAME = dataclasses.dataclass(NAME)\n",
+    "NAME: type = NAME\n",
+    "NAME = Alias = NAME\n" .replace("NAME = Alias = NAME", "Alias = NAME = NAME"),
+    "if FLAG:\n    class NAME(object):\n        \"\"\"redefinition\"\"\"\n\n        zzz: int = 0\n",
+    "try:\n    NAME = wrap(NAME)\nexcept NameError:\n    pass\n",
+    "class NAME(NAME):\n    \"\"\"later re-definition\"\"\"\n\n    extra_attr: int = 1\n",
+    "def NAME():\n    return None\n",
+    "async def NAME():\n    return None\n",
+]
+
+
 def gen_iface(rng, exclude=()):
     n = rng.randint(1, 4)
     names = rng.sample([p for p in PARAMS if p not in exclude], n)
@@ -283,6 +353,11 @@ def build_file(rng, kind, name, iface, state):
         tgt = render_function(path[-1], iface, rng, first)
         if first is None and len(path) > 1:
             tgt = "@staticmethod\n" + tgt
+    if kind == "class" and len(path) == 1 and rng.random() < 0.3:
+        # statements AFTER the target whose `_location` is the target's path, too: only the first match may be replaced
+        nm = path[-1]
+        after = [rng.choice(SAME_NAMED_AFTER).replace("NAME", nm)] + after
+        rng.shuffle(after)
     for comp in reversed(path[:-1]):
         inner_before = [rng.choice(UNRELATED_IN_CLASS) for _ in range(rng.randint(0, 2))]
         inner_after = [rng.choice(UNRELATED_IN_CLASS) for _ in range(rng.randint(0, 2))]
@@ -305,6 +380,77 @@ def build_case(rng, k):
     return {"id": k, "truth": truth, "names": names, "states": states, "files": files, "runs": rng.choice([1, 2, 2, 3])}
 
 
+def emitter_class_text(name, iface):
+    """a class in exactly the layout sync itself writes for an interface without parameter descriptions"""
+    lines = ["class %s(object):" % name, '    """', '    %s"""' % iface["doc"], ""]
+    for n, p in iface["params"].items():
+        lines.append("    %s: %s = %r" % (n, p["typ"], p["default"]))
+    return "\n".join(lines) + "\n"
+
+
+def bare_function(name, iface, rng, first=None, body="pass"):
+    """a truth with a summary line and NO per-parameter descriptions"""
+    sig = ([first] if first else []) + ["%s: %s = %r" % (n, p["typ"], p["default"]) for n, p in iface["params"].items()]
+    lines = ["def %s(%s):" % (name, ", ".join(sig)), '    """', "    %s" % iface["doc"], '    """']
+    if body:
+        lines.append("    " + body)
+    return "\n".join(lines) + "\n"
+
+
+def edit_iface(rng, iface):
+    """the user's edit of the truth: drop the last parameter, or append one at the end (prefix / extension)"""
+    params = OrderedDict(iface["params"])
+    if len(params) > 1 and rng.random() < 0.5:
+        params.popitem()
+    else:
+        nm = rng.choice([p for p in PARAMS if p not in params])
+        params[nm] = {"typ": "int", "doc": "", "default": rng.choice([0, 3, 7])}
+    return {"doc": iface["doc"], "params": params}
+
+
+def build_history_case(rng, k):
+    """truth = function without parameter descriptions; the class target is (or becomes, in run 1) sync's own output; the truth's
+    parameter list is then edited at its end between runs, so the stale and the wanted class body are in a prefix relation"""
+    names = {"class": rng.choice(CLASS_NAMES), "function": rng.choice(["run_it", "main_fn", "C.m", "Trainer.run"]), "argparse_function": rng.choice(ARGPARSE_NAMES)}
+    path = names["function"].split(".")
+    iface = gen_iface(rng)
+    for p_ in iface["params"].values():
+        p_["doc"] = ""
+    while len(iface["params"]) < 2:
+        iface = edit_iface(rng, dict(iface, params=OrderedDict(iface["params"])))
+    first = rng.choice(["self", "cls"]) if len(path) > 1 else None
+    body = rng.choice(["pass", "pass", None])
+
+    def truth_text(ifc, pre, post):
+        tgt = bare_function(path[-1], ifc, rng, first, body)
+        for comp in reversed(path[:-1]):
+            tgt = "class %s(object):\n" % comp + indent(tgt)
+        return "\n".join(pre + [tgt] + post)
+
+    # no top-level `def` before a method truth (finding C12-truth-method-not-found is exercised elsewhere)
+    pool = [u for u in UNRELATED_TOP if len(path) == 1 or not u.startswith("def ")]
+    pre = [rng.choice(pool) for _ in range(rng.randint(0, 2))]
+    post = [rng.choice(UNRELATED_TOP) for _ in range(rng.randint(0, 2))]
+    cstate = rng.choice(["synced-prefix", "synced-prefix", "empty", "present"])
+    if cstate == "synced-prefix":
+        cls_text = "\n".join([rng.choice(UNRELATED_TOP) for _ in range(rng.randint(0, 2))] + [emitter_class_text(names["class"], edit_iface(rng, iface))]
+                             + [rng.choice(UNRELATED_TOP) for _ in range(rng.randint(0, 2))])
+    elif cstate == "empty":
+        cls_text = ""
+    else:
+        cls_text = build_file(rng, "class", names["class"], gen_iface(rng), "present")
+    files = {"function": truth_text(iface, pre, post), "class": cls_text,
+             "argparse_function": build_file(rng, "argparse_function", names["argparse_function"], gen_iface(rng), "present")}
+    runs = rng.choice([2, 3, 3, 4])
+    edits, cur = {}, iface
+    for ri in range(1, runs):
+        if ri == 1 or rng.random() < 0.6:
+            cur = edit_iface(rng, cur)
+            edits[str(ri)] = truth_text(cur, pre, post)
+    states = {"function": "present", "argparse_function": "present", "class": "present" if cstate != "empty" else "empty"}
+    return {"id": "history-%s" % k, "truth": "function", "names": names, "states": states, "files": files, "runs": runs, "edits": edits}
+
+
 # ------------------------------------------------------------------------------------------------------
 # the real CLI
 # ------------------------------------------------------------------------------------------------------
@@ -324,7 +470,15 @@ def run_real(case):
                 Path(d, FNAME[kind]).write_text(case["files"][kind])
         env = dict(os.environ, PYTHONPATH=str(core.REPO), PYTHONHASHSEED="0")
         snaps = []
-        for _ in range(case["runs"]):
+        edits = case.get("edits") or {}
+        for ri in range(case["runs"]):
+            if str(ri) in edits:
+                # the user edits the truth between two runs
+                Path(d, FNAME[case["truth"]]).write_text(edits[str(ri)])
+            before = {}
+            for kind in KINDS:
+                f = Path(d, FNAME[kind])
+                before[kind] = f.read_text() if f.exists() else None
             try:
                 p = subprocess.run([core.PY, "-m", "cdd"] + cli_args(case, d), stdout=subprocess.PIPE, stderr=subprocess.PIPE, text=True,
                                    env=env, cwd=d, timeout=120)
@@ -346,7 +500,7 @@ def run_real(case):
             if rc != 0:
                 last = [l for l in err.strip().splitlines() if l.strip()]
                 exc = "raises:" + (last[-1].split(":")[0].strip() if last else "?")
-            snaps.append({"rc": rc, "files": files, "flags": flags, "exc": exc, "stderr": err[-600:] if rc else ""})
+            snaps.append({"rc": rc, "before": before, "files": files, "flags": flags, "exc": exc, "stderr": err[-600:] if rc else ""})
         return snaps
     finally:
         shutil.rmtree(d, ignore_errors=True)
@@ -598,14 +752,39 @@ def classify_outcome(before, after, path):
     return "rewritten"
 
 
+def state_of(text, path):
+    if text is None:
+        return "missing"
+    if not text.strip():
+        return "empty"
+    return "present" if resolve_text(text, path) else "absent"
+
+
 def oracle(chk, case, snaps):
-    """C12 on the real files. Reports through chk.failure; returns the list of (sig, what)."""
+    """C12 on the real files, phase by phase: a phase starts at run 1 and at every run before which the truth was edited;
+    its first run must establish the property, its further runs must leave every file byte-identical."""
+    starts = [0] + sorted(int(k) for k in (case.get("edits") or {}) if 0 < int(k) < len(snaps))
+    fails = []
+    for n, j in enumerate(starts):
+        end = starts[n + 1] if n + 1 < len(starts) else len(snaps)
+        before = snaps[j]["before"]
+        states = case["states"] if j == 0 else {k: state_of(before[k], [c.strip() for c in case["names"][k].split(".")]) for k in KINDS}
+        got = oracle_phase(chk, case, before, states, snaps[j:end])
+        if j:
+            got = [(dict(sg, after_edit=True), "after editing the truth (run %d): %s" % (j + 1, w)) for sg, w in got]
+        fails += got
+        if any(s_["rc"] != 0 for s_ in snaps[j:end]):
+            break
+    return fails
+
+
+def oracle_phase(chk, case, before, states, snaps):
     fails = []
     t = case["truth"]
-    before = case["files"]
     first = snaps[0]
     truth_view, why = parse_target(t, before[t], case["names"][t])
     base = {"truth": t}
+    case = dict(case, files=before, states=states)
 
     def fail(sig, what):
         s = dict(base)
@@ -690,10 +869,14 @@ def check_sync_cases(chk, cases, label):
         idx = [i for i, c in enumerate(cases) if alive[i] and c["runs"] > run]
         if not idx:
             break
+        for i in idx:
+            ed = (cases[i].get("edits") or {}).get(str(run))
+            if ed is not None:
+                state[i] = dict(state[i], **{cases[i]["truth"]: file_json(ed)})
         plans = core.model_batch([{"op": "c12.plan", "files": state[i], "names": cases[i]["names"], "truth": cases[i]["truth"]} for i in idx])
         reqs, ties = [], []
         for i, plan in zip(idx, plans):
-            texts = cases[i]["files"] if run == 0 else real[i][run - 1]["files"]
+            texts = real[i][run]["before"]
             try:
                 with quiet():
                     em, tie = real_emissions(cases[i], texts, plan)
@@ -714,7 +897,7 @@ def check_sync_cases(chk, cases, label):
                     alive[i] = False
                     chk.coverage["sync_out_of_model"] = chk.coverage.get("sync_out_of_model", 0) + 1
                     continue
-                texts0 = c["files"] if run == 0 else real[i][run - 1]["files"]
+                texts0 = snap["before"]
                 if any(isinstance(v, dict) for v in realj.values()) or \
                         any(classify_outcome(texts0[k], snap["files"][k], []) == "glued-append" for k in KINDS):
                     # a real file is not valid Python / text was glued onto a last line without newline: a text-level effect of
@@ -754,7 +937,7 @@ def check_sync_cases(chk, cases, label):
                 n_dis += 1
                 alive[i] = False
                 chk.disagreement("C12 correspondence: Sync.sync vs `python -m cdd sync` (%s)" % label,
-                                 {"case": {k: c[k] for k in ("truth", "names", "states", "files", "runs")}, "run": run + 1, "why": bad},
+                                 {"case": {k: c.get(k) for k in ("truth", "names", "states", "files", "runs", "edits")}, "run": run + 1, "why": bad},
                                  {"files": snap["files"], "flags": snap["flags"], "rc": snap["rc"], "exc": snap["exc"]},
                                  {"files": out.get("files"), "flags": out.get("flags"), "err": out.get("err")})
             else:
@@ -813,11 +996,31 @@ def run(chk: core.Check) -> int:
                 chk.disagreement("C12 correspondence: Sync.rwList vs RewriteAtQuery.visit", {"src": c[0], "search": c[1], "repl": c[2]}, i, m)
     chk.oblige("correspondence Sync.findInAst = find_in_ast on %d (module, path) pairs" % len(finds), "correspondence", have_driver and n_f == 0, "%d disagreements" % n_f)
     chk.oblige("correspondence Sync.rwList = RewriteAtQuery.visit on %d (module, path, replacement) triples" % len(rws), "correspondence", have_driver and n_r == 0, "%d disagreements" % n_r)
+    # cmp_ast, with prefix / extension pairs
+    cmps = cmp_cases(rng, 1500 if chk.quick else 15000)
+    impl_c = core.pmap(impl_cmp, [pr for _, pr in cmps], chunksize=256)
+    n_c, kinds_c = 0, {}
+    if have_driver:
+        mod_c = core.model_batch([{"op": "c12.cmp", "a": pyast.module_to_json(a)[0], "b": pyast.module_to_json(b)[0]} for _, (a, b) in cmps])
+        for (kind, pr), i, m in zip(cmps, impl_c, mod_c):
+            key = "%s:%s" % (kind, "equal" if i["eq"] else "different")
+            kinds_c[key] = kinds_c.get(key, 0) + 1
+            chk.count(("cmp",) + pr, pr[0] != pr[1])
+            # the property needs exactly this: two nodes are reported equal only if they are the same code
+            if i["eq"] and pyast.module_to_json(pr[0]) != pyast.module_to_json(pr[1]):
+                chk.failure({"clause": "change-detection", "cmp_case": kind}, "cmp_ast reports two different definitions as equal (%s)" % kind,
+                            {"fn": "cmp", "a": pr[0], "b": pr[1]})
+            if i.get("eq") != m.get("eq"):
+                n_c += 1
+                chk.disagreement("C12 correspondence: Stmt.beq vs cmp_ast", {"a": pr[0], "b": pr[1]}, i, m)
+    chk.oblige("correspondence Stmt.beq = cmp_ast on %d pairs of definitions (prefix / extension pairs included)" % len(cmps), "correspondence",
+               have_driver and n_c == 0, "%d disagreements" % n_c)
+    chk.coverage["cmp_outcomes"] = kinds_c
     chk.coverage["find_outcomes"] = kinds_f
     chk.coverage["rewrite_outcomes"] = kinds_r
     # ---- (2) the real CLI on triples of files ---------------------------------------------------------------
     cases = [build_case(rng, k) for k in range(160 if chk.quick else 1600)]
-    cases = witness_cases() + cases
+    cases = witness_cases() + cases + [build_history_case(rng, k) for k in range(40 if chk.quick else 400)]
     n_s, real = check_sync_cases(chk, cases, "structured") if have_driver else (0, [run_real(c) for c in cases])
     chk.oblige("correspondence Sync.sync = `python -m cdd sync` (files after every run) on %d triples, %d CLI runs" % (len(cases), sum(c["runs"] for c in cases)),
                "correspondence", have_driver and n_s == 0, "%d disagreements" % n_s)
@@ -838,7 +1041,7 @@ def run(chk: core.Check) -> int:
         with quiet():
             fails = oracle(chk, c, snaps)
         for sig, what in fails:
-            chk.failure(sig, what, {"fn": "sync", "case": {k: c[k] for k in ("id", "truth", "names", "states", "files", "runs")}})
+            chk.failure(sig, what, {"fn": "sync", "case": {k: c.get(k) for k in ("id", "truth", "names", "states", "files", "runs", "edits")}})
         if str(c["id"]).startswith("witness"):
             # the witnesses of the negation theorems must (still) fail on the real code, in the recorded way
             want = WITNESS_EXPECT[c["id"]]
@@ -878,6 +1081,11 @@ def witness_cases():
 def replay(path: str) -> int:
     d = json.loads(Path(path).read_text())
     rp = d.get("replay") or {}
+    if rp.get("fn") == "cmp":
+        eq = impl_cmp((rp["a"], rp["b"]))["eq"]
+        same = pyast.module_to_json(rp["a"]) == pyast.module_to_json(rp["b"])
+        print("replay cmp_ast: reports %s, the definitions are %s" % ("equal" if eq else "different", "the same" if same else "different"))
+        return 1 if (eq and not same) else 0
     if rp.get("fn") != "sync":
         print("replay: nothing to replay (kind=%s)" % d.get("kind"))
         return 2
